@@ -50,6 +50,7 @@ func C19(r *core.Run) {
 	fmtDiffForms(r)
 	editsDisjoint(r)
 	renderedTextOpaque(r)
+	gapAgreement(r)
 }
 
 // charConsts returns the rune constants (and identifiers) listed in the case
